@@ -18,6 +18,14 @@ fn any_ascii<const N: usize>(buf: &mut [u8; N]) -> usize {
   len
 }
 
+/// Environment stub (Kani -Z stubbing): the text of a comment is not part of what these harnesses check, and
+/// lossy decoding + trimming + joining of a symbolic buffer dominates the cost otherwise.  Slicing of the
+/// buffer (where the bounds can go wrong) happens before this call and is still executed for real.
+#[cfg(kani)]
+fn stub_from_utf8_lossy(_v: &[u8]) -> std::borrow::Cow<'_, str> {
+  std::borrow::Cow::Borrowed("")
+}
+
 /// line / column after consuming `bytes` from `start` (independent recomputation: lines = number of '\n',
 /// column = bytes since the last '\n')
 #[cfg(kani)]
@@ -93,6 +101,7 @@ fn scan_string_literal() {
 #[cfg(kani)]
 #[kani::proof]
 #[kani::unwind(9)]
+#[kani::stub(std::string::String::from_utf8_lossy, stub_from_utf8_lossy)]
 fn scan_line_comment() {
   const N: usize = 5;
   let mut buf = [0u8; N];
@@ -120,6 +129,7 @@ fn scan_line_comment() {
 #[cfg(kani)]
 #[kani::proof]
 #[kani::unwind(9)]
+#[kani::stub(std::string::String::from_utf8_lossy, stub_from_utf8_lossy)]
 fn scan_block_comment() {
   const N: usize = 6;
   let mut buf = [0u8; N];
